@@ -444,6 +444,26 @@ template <> struct Codec<Outer> {
     }
 };
 
+// a class whose DEFAULT constructor leaves engaged optionals and a non-empty vector behind (like
+// Opm::SICD::m_scaling_factor{1.0}): UNPACK into a default-constructed object must still reset them
+struct Preset {
+    std::optional<int> limit{42};
+    std::optional<std::string> tag{std::string("dflt")};
+    std::vector<std::optional<double>> xs{1.0, std::nullopt};
+    int n = 3;
+    template <class S> void serializeOp(S& s) { s(limit); s(tag); s(xs); s(n); }
+};
+template <> struct Codec<Preset> {
+    using A = std::optional<int>; using B = std::optional<std::string>; using C = std::vector<std::optional<double>>;
+    static std::string ty() { return "c(" + Codec<A>::ty() + "," + Codec<B>::ty() + "," + Codec<C>::ty() + ",i4)"; }
+    static Preset gen(vh::Rng& r, const GenCfg& c) {
+        Preset x; x.limit = Codec<A>::gen(r, c); x.tag = Codec<B>::gen(r, c); x.xs = Codec<C>::gen(r, c); x.n = Codec<int>::gen(r, c); return x;
+    }
+    static std::string show(const Preset& v, bool canon) {
+        return joinList({ Codec<A>::show(v.limit, canon), Codec<B>::show(v.tag, canon), Codec<C>::show(v.xs, canon), Codec<int>::show(v.n, canon) });
+    }
+};
+
 // ---- classes holding shared_ptr, shaped like Well / ScheduleState ---------------------------------
 struct WellLike {
     int id = 0;
